@@ -313,6 +313,11 @@ func oracle(c *Case, o *Obs) (string, string) {
 	if p.MsgCancel && !p.Is[3] {
 		return "the error says the context was cancelled but errors.Is(err, <the context's error>) is false", "sentinel-not-matchable"
 	}
+	// ... and whenever the run was stopped by its context and says why: a cancellation that gives a cause
+	// (context.WithCancelCause / WithDeadlineCause) is still a cancellation — the context's own error stays matchable
+	if cancelled && p.IsCause && !p.Is[3] {
+		return "the run was stopped by its context and its error carries the cause given to the cancellation, but errors.Is(err, <the context's error: context.Canceled / context.DeadlineExceeded>) is false: " + p.Msg, "sentinel-not-matchable"
+	}
 	// whatever failed, the path the error names is a path of nodes that exist
 	if !realPath(c.G, p.MsgPath, anyNested(c)) {
 		return fmt.Sprintf("the error names the node path %v, which is not a path of nodes of the graph: %s", p.MsgPath, p.Msg), "path-not-a-node"
@@ -416,6 +421,12 @@ func tagsOf(c *Case, o *Obs) []string {
 				maxPar = len(st)
 			}
 			for _, n := range st {
+				if n.OutKey {
+					faults["opt-output-key"]++
+				}
+				if n.InKey != "" {
+					faults["opt-input-key"]++
+				}
 				switch n.Kind {
 				case "lam":
 					if n.Beh != "ok" {
@@ -464,7 +475,7 @@ func tagsOf(c *Case, o *Obs) []string {
 	nf := 0
 	for k, v := range faults {
 		t = append(t, "has:"+k)
-		if !strings.HasPrefix(k, "mode-") && !strings.HasPrefix(k, "front-") && !strings.HasPrefix(k, "flav-") && !strings.HasPrefix(k, "err-") && !strings.HasPrefix(k, "pos-") && k != "loop" && k != "explicit-max" && k != "end-branch" {
+		if !strings.HasPrefix(k, "mode-") && !strings.HasPrefix(k, "front-") && !strings.HasPrefix(k, "flav-") && !strings.HasPrefix(k, "err-") && !strings.HasPrefix(k, "pos-") && !strings.HasPrefix(k, "opt-") && k != "loop" && k != "explicit-max" && k != "end-branch" {
 			nf += v
 		}
 	}
@@ -474,6 +485,9 @@ func tagsOf(c *Case, o *Obs) []string {
 		if c.Deadline {
 			t = append(t, "has:deadline-passed")
 		}
+	}
+	if c.Cause && (c.CancelBefore || hasBeh(c.G, "cancel")) {
+		t = append(t, "has:cancellation-with-cause")
 	}
 	if c.InErr != nil {
 		t = append(t, "has:input-error-item")
